@@ -187,6 +187,8 @@ def run(ck):
                      "regression_models_with_mixed_support": rsupport, "regression_models_whose_weights_index_is_not_in_id_order": unordered})
     if nfrac == 0 or ndet == 0 or multi == 0 or rsupport == 0 or unordered == 0:
         raise MachineryError(f"vacuity: frac {nfrac} det {ndet} mixed EG {multi} mixed regression {rsupport} unordered weights {unordered}")
+    from harness import extras2
+    extras2.interp(ck)       # specification growth (refinement tier only): InterpolatedThresholder with a hand-written rule table
     ck.assumptions += ["frequency clause: 3000 replicated rows per query point in one predict call, fixed seeds, 6-sigma acceptance (outside TLC)",
                        "refinement tier (NOTE only): label = [p >= U] with U = RandomState(seed).rand(n)"]
 
